@@ -937,6 +937,20 @@ func ownRsaEnc(pub *rsa.PublicKey, msg []byte) []byte {
 	return out
 }
 
+func gzEncrypt(pubPem, msg []byte) (ct []byte, ok bool) {
+	defer func() {
+		if recover() != nil {
+			ct, ok = nil, false
+		}
+	}()
+	enc, err := codec.NewRsaEncrypter(pubPem)
+	if err != nil {
+		return nil, false
+	}
+	ct, err = enc.Encrypt(msg)
+	return ct, err == nil
+}
+
 func ownRsaDec(priv *rsa.PrivateKey, raw []byte) ([]byte, bool) {
 	k := priv.Size()
 	if len(raw) == 0 {
@@ -1027,6 +1041,7 @@ type built struct {
 	header string
 	hasHdr bool
 	view   CSView
+	gzBad  bool // go-zero's own codec.RsaEncrypter failed or panicked on the secret (made with crypto/rsa instead)
 }
 
 func buildCS(c Case, now int64) built {
@@ -1115,13 +1130,13 @@ func buildCSReq(q CSReq, known []string, now int64) built {
 	case "A", "B", "C", "D":
 		var ct []byte
 		if q.GzEnc {
-			// the client-side helper of go-zero itself
-			enc, err := codec.NewRsaEncrypter(rsaKeys[q.Rsa].pubPem)
-			if err != nil {
-				hx.Fatal("NewRsaEncrypter: %v", err)
-			}
-			if ct, err = enc.Encrypt([]byte(secretPlain)); err != nil {
-				hx.Fatal("rsa encrypt: %v", err)
+			// the client-side helper of go-zero itself; should it fail or panic on the tree under test (it is not
+			// part of the gate), the secret is made with crypto/rsa instead and the run goes on: the server side,
+			// which shares the block chunking, is judged on what it does with that secret
+			var ok bool
+			if ct, ok = gzEncrypt(rsaKeys[q.Rsa].pubPem, []byte(secretPlain)); !ok {
+				b.gzBad = true
+				ct = ownRsaEnc(&rsaKeys[q.Rsa].priv.PublicKey, []byte(secretPlain))
 			}
 		} else {
 			ct = ownRsaEnc(&rsaKeys[q.Rsa].priv.PublicKey, []byte(secretPlain))
@@ -1845,6 +1860,9 @@ func runSrv(c Case) *SrvObs {
 			b = reuseHeader(b, builts[*sq.Reuse], sq.CS, n0)
 		}
 		builts = append(builts, b)
+		if b.gzBad {
+			o.Panic = "codec.RsaEncrypter failed or panicked on an ordinary secret"
+		}
 		o.View = b.view
 		r := b.requestFor(sq.CS)
 		idx := strconv.Itoa(i)
@@ -2210,6 +2228,10 @@ func runCS(c Case) *CSObs {
 	o.CodecX = codecExtras(key, plain, enc, err == nil)
 	if hijackOdd {
 		o.CodecX += " hijack"
+	}
+	if b.gzBad {
+		// the stock client helper could not encrypt an ordinary secret: judged with the other codec entry points
+		o.CodecX = strings.TrimSpace(o.CodecX + " RsaEncrypter")
 	}
 	return o
 }
